@@ -35,7 +35,7 @@ pub struct MClient {
 }
 
 #[derive(Clone, Debug)]
-pub struct Done { pub c: usize, pub args: Vec<Bytes>, pub reply: Option<R>, pub tag: u64, pub now: u64, pub blocked: bool }
+pub struct Done { pub c: usize, pub args: Vec<Bytes>, pub reply: Option<R>, pub tag: u64, pub now: u64, pub blocked: bool, pub db: usize }
 
 pub struct Multi {
     pub h: H,
@@ -57,6 +57,12 @@ pub struct Multi {
     /// a mismatch was found in this turn: the rest of the turn's commands are not judged, the model is re-synchronised at the end of the turn
     pub poisoned: bool,
     pub eval_in_turn: bool,
+    /// databases selected by the connections that ran scripts in this turn
+    pub eval_dbs: BTreeSet<usize>,
+    /// SCRIPT LOAD results: sha -> script text
+    pub scripts: BTreeMap<Bytes, Bytes>,
+    /// model SELECT queued inside MULTI (it takes effect when EXEC runs it)
+    pub select_in_exec: bool,
 }
 
 pub fn upper(a: &[u8]) -> String { String::from_utf8_lossy(a).to_uppercase() }
@@ -64,7 +70,7 @@ pub fn upper(a: &[u8]) -> String { String::from_utf8_lossy(a).to_uppercase() }
 impl Multi {
     pub fn new(h: H, prop: &str) -> Multi {
         Multi { h, model: Model::new(), prop: prop.to_string(), cl: BTreeMap::new(), turn_no: 0, block_seq: 0, tag_seq: 0, history: Vec::new(), served: Vec::new(),
-                compare_dumps: true, strict_exec_replies: true, lenient_eval: true, stalled_turns: 0, poisoned: false, eval_in_turn: false }
+                compare_dumps: true, strict_exec_replies: true, lenient_eval: true, stalled_turns: 0, poisoned: false, eval_in_turn: false, eval_dbs: BTreeSet::new(), scripts: BTreeMap::new(), select_in_exec: false }
     }
     pub fn connect(&mut self, c: usize) {
         let sim = self.h.connect(c, self.h.inst, 0);
@@ -105,6 +111,7 @@ impl Multi {
 
     fn reconcile(&mut self) {
         self.eval_in_turn = false;
+        self.eval_dbs.clear();
         // 1. replies for clients that were blocked before this turn: element deliveries first (the server
         //    processes its wake-up queue at the top of the turn), timeouts after the commands.
         let mut blocked_ids: Vec<usize> = self.cl.iter().filter(|(_, c)| c.blocked.is_some() && !c.gone).map(|(k, _)| *k).collect();
@@ -180,7 +187,7 @@ impl Multi {
             self.h.violate(format!("{}/blocking/fifo", self.prop), format!("client {} (blocked as #{}) was served {} from {} while client(s) {:?} blocked on that key earlier and are still waiting", c, b.order, resp::escape(&elem), resp::escape(&key), earlier));
         }
         self.served.push((c, key.clone(), elem.clone(), self.turn_no));
-        self.history.push(Done { c, args: b.args.clone(), reply: Some(rep), tag: 0, now, blocked: true });
+        self.history.push(Done { c, args: b.args.clone(), reply: Some(rep), tag: 0, now, blocked: true, db: b.db });
         self.h.count("blocked_served", 1);
     }
     fn timeout_blocked(&mut self, c: usize) {
@@ -192,7 +199,7 @@ impl Multi {
             Some(d) if now < d => self.h.violate(format!("{}/blocking/timeout-early", self.prop), format!("client {} received nil at {} but its deadline is {}", c, now, d)),
             _ => {}
         }
-        self.history.push(Done { c, args: b.args.clone(), reply: Some(R::NilArr), tag: 0, now, blocked: true });
+        self.history.push(Done { c, args: b.args.clone(), reply: Some(R::NilArr), tag: 0, now, blocked: true, db: b.db });
         self.h.count("blocked_timed_out", 1);
     }
 
@@ -242,7 +249,7 @@ impl Multi {
         self.cl.get_mut(&c).unwrap().executed += 1;
         self.h.count("cmds", 1);
         self.h.note(format!("c{} db{} t={} {} -> {}", c, db, now, show_cmd(&args), reply.short()));
-        self.history.push(Done { c, args: args.clone(), reply: Some(reply.clone()), tag: inf.tag, now, blocked: false });
+        self.history.push(Done { c, args: args.clone(), reply: Some(reply.clone()), tag: inf.tag, now, blocked: false, db });
         self.judge(c, &args, &verb, db, now, &reply);
         true
     }
@@ -289,6 +296,9 @@ impl Multi {
                 if valid { if *reply == R::ok() { self.cl.get_mut(&c).unwrap().db = strict_i64(&args[1]).unwrap() as usize; } else { self.mismatch(verb, "-", &format!("exp=status,got={}", reply.kind()), reply.short()); } }
                 else if !reply.is_err() { self.mismatch(verb, "invalid-index", &format!("exp=error,got={}", reply.kind()), format!("`{}` -> {}", show_cmd(args), reply.short())); }
             }
+            "SCRIPT" if !in_multi => {
+                if args.len() == 3 && upper(&args[1]) == "LOAD" { if let R::Bulk(sha) = reply { self.scripts.insert(sha.clone(), args[2].clone()); } }
+            }
             _ if in_multi => {
                 // queued (the queue-time checks of Redis - unknown command, arity - are not generated)
                 if *reply == R::Simple(b"QUEUED".to_vec()) { self.cl.get_mut(&c).unwrap().multi.as_mut().unwrap().push(args.to_vec()); }
@@ -307,6 +317,7 @@ impl Multi {
         match verb { "FLUSHDB" => self.touch_all(Some(db)), "FLUSHALL" => self.touch_all(None), _ => { let a: Vec<Bytes> = args[1..].to_vec(); self.touch(db, &a); } }
         if verb == "EVAL" || verb == "EVALSHA" {
             self.eval_in_turn = true;
+            self.eval_dbs.insert(db);
             match self.apply_script(db, args, now, reply) { Some(true) => {} Some(false) => { self.h.count("unmodelled", 1); self.poisoned = true; } None => {} }
             return;
         }
@@ -328,7 +339,7 @@ impl Multi {
     /// Script templates the model understands. Some(true) = modelled, Some(false) = unknown script, None = judged.
     fn apply_script(&mut self, db: usize, args: &[Bytes], now: u64, reply: &R) -> Option<bool> {
         if args.len() < 3 { return Some(false); }
-        let script = String::from_utf8_lossy(&args[1]).to_string();
+        let script = if upper(&args[0]) == "EVALSHA" { match self.scripts.get(&args[1]) { Some(t) => String::from_utf8_lossy(t).to_string(), None => return Some(reply.is_err()) } } else { String::from_utf8_lossy(&args[1]).to_string() };
         let nk = strict_i64(&args[2]).unwrap_or(-1);
         if nk < 0 || args.len() < 3 + nk as usize { return Some(false); }
         let keys: Vec<Bytes> = args[3..3 + nk as usize].to_vec();
@@ -402,8 +413,16 @@ impl Multi {
         }
         self.h.count("exec_batches", 1);
         self.h.count("exec_commands", queue.len() as u64);
+        let mut db = db;
         for (q, r) in queue.iter().zip(items.iter()) {
             let verb = upper(&q[0]);
+            if verb == "SELECT" && self.select_in_exec {
+                // a queued SELECT takes effect when it runs: the rest of the batch and the connection use the new database
+                let valid = q.len() == 2 && strict_i64(&q[1]).map_or(false, |v| (0..16).contains(&v));
+                if valid { if *r == R::ok() { db = strict_i64(&q[1]).unwrap() as usize; self.cl.get_mut(&c).unwrap().db = db; } else { self.mismatch("SELECT", "in-exec", &format!("exp=status,got={}", r.kind()), format!("client {}: `{}` inside EXEC -> {}", c, show_cmd(q), r.short())); } }
+                else if !r.is_err() { self.mismatch("SELECT", "in-exec", &format!("exp=error,got={}", r.kind()), format!("client {}: `{}` inside EXEC -> {}", c, show_cmd(q), r.short())); }
+                continue;
+            }
             if verb == "SELECT" || verb == "UNWATCH" { continue; } // outside the modelled catalogue / no effect at this point
             self.apply_plain(c, q, &verb, db, now, r, "in-exec");
         }
@@ -434,6 +453,8 @@ impl Multi {
         let now = self.h.sim.now();
         let storage = self.h.sim.instances[self.h.inst].storage.clone();
         self.model.purge_all(now);
+        let mut bads: Vec<(usize, String)> = Vec::new();
+        let mut tie_any = false;
         for db in 0..16 {
             let dump = storage.verif_dump(db);
             let from = super::seq::from_dump(&dump, now);
@@ -450,20 +471,23 @@ impl Multi {
                 }
             }
             if bad.is_none() { for (k, m) in md.map.iter() { if m.deadline.map_or(true, |d| now < d) && !from.map.contains_key(k) { bad = Some(format!("db{} key {} ({}) absent from storage", db, resp::escape(k), m.val.type_name())); break; } } }
-            if bad.is_none() && tie_differs { self.h.count("deadline_tie_dont_care", 1); self.resync(); return; }
-            if let Some(d) = bad {
-                if self.eval_in_turn && self.lenient_eval {
-                    // what redis.call does compared with the direct command is C12's subject: follow the implementation
-                    self.h.count("eval_effect_differs_from_direct_command", 1);
-                    self.resync();
-                    return;
-                }
-                let last = self.history.last().map(|d| upper(&d.args[0])).unwrap_or_default();
-                self.h.violate(format!("{}/dump/after-{}", self.prop, last), format!("stored dataset differs from the model after turn {}: {}", self.turn_no, d));
-                self.resync();
-                return;
-            }
+            if bad.is_none() && tie_differs { tie_any = true; }
+            if let Some(d) = bad { bads.push((db, d)); }
         }
+        if bads.is_empty() {
+            if tie_any { self.h.count("deadline_tie_dont_care", 1); self.resync(); }
+            return;
+        }
+        // what redis.call does compared with the direct command is C12's subject - but only inside the
+        // database the script's connection has selected
+        let lenient: Vec<&(usize, String)> = bads.iter().filter(|(db, _)| self.eval_in_turn && self.lenient_eval && self.eval_dbs.contains(db)).collect();
+        let strict: Vec<&(usize, String)> = bads.iter().filter(|(db, _)| !(self.eval_in_turn && self.lenient_eval && self.eval_dbs.contains(db))).collect();
+        if !lenient.is_empty() { self.h.count("eval_effect_differs_from_direct_command", 1); }
+        if let Some((_, d)) = strict.first() {
+            let last = self.history.last().map(|d| upper(&d.args[0])).unwrap_or_default();
+            self.h.violate(format!("{}/dump/after-{}", self.prop, last), format!("stored dataset differs from the model after turn {}: {}", self.turn_no, d));
+        }
+        self.resync();
     }
 
     pub fn finish(mut self, seed: u64) -> Outcome {
